@@ -843,17 +843,32 @@ func NewTarget(t *GTy) (interface{}, func() *Val) {
 	return p.Interface(), func() *Val { return FromGo(p.Elem(), t) }
 }
 
-func DoUnmarshal(info gocql.TypeInfo, data []byte, t *GTy) (res *Val, cls int, msg string) {
+// DoUnmarshal runs gocql.Unmarshal on a private copy of data, then OVERWRITES that copy (0xAA) before the
+// decoded value is read back: a decoded value that shares memory with the input buffer (which the framer
+// reuses for the next frame) shows up as a changed value.  reread reads the target again later (retained-
+// output recheck at the end of the run).
+func DoUnmarshal(info gocql.TypeInfo, data []byte, t *GTy) (res *Val, cls int, msg string, reread func() *Val) {
 	defer func() {
 		if r := recover(); r != nil {
-			res, cls, msg = nil, ClsPanic, fmt.Sprint(r)
+			res, cls, msg, reread = nil, ClsPanic, fmt.Sprint(r), nil
 		}
 	}()
-	tgt, read := NewTarget(t)
-	if err := gocql.Unmarshal(info, data, tgt); err != nil {
-		return nil, ClsErr, err.Error()
+	var buf []byte
+	if data != nil {
+		// spare capacity behind the value, as in a frame buffer where other cells follow
+		buf = make([]byte, len(data), len(data)+8)
+		copy(buf, data)
 	}
-	return read(), ClsOk, ""
+	tgt, read := NewTarget(t)
+	err := gocql.Unmarshal(info, buf, tgt)
+	full := buf[:cap(buf)]
+	for i := range full {
+		full[i] = 0xAA
+	}
+	if err != nil {
+		return nil, ClsErr, err.Error(), nil
+	}
+	return read(), ClsOk, "", read
 }
 
 func MResCoq(out []byte, cls int) string {
